@@ -420,6 +420,16 @@ func GenTrie(r *core.Rand) (pats []Seq, u Unit, tag string) {
 func gen(r *core.Rand, tier string) core.Case {
 	pats, u, tag := GenTrie(r)
 	lines := []string{Header("C05", SeqsBytes(pats))}
+	// structural dump first (independent of the queries): 1 case in 3, 1 in 2 for the
+	// many-pattern streams; the draw is made in any case so that the case stream does
+	// not depend on whether the reflected layout is available
+	pct := 33
+	if tag != "main" && tag != "malformed" {
+		pct = 50
+	}
+	if r.Chance(pct) && DumpAvailable() {
+		lines = append(lines, "dump")
+	}
 	nops := r.Range(3, 8)
 	for i := 0; i < nops; i++ {
 		switch r.Pick(18, 34, 28, 20) {
@@ -466,7 +476,7 @@ func corpus() []core.Case {
 	for _, a := range wideAlphabet {
 		wide14 = append(wide14, a+"x", a+"y")
 	}
-	return []core.Case{
+	cases := []core.Case{
 		// F3: backtracking over a multi-byte rune in the DFS of PrefixSearch / FuzzySearch
 		mk([]string{"你好", "你们"}, "prefix 你"),
 		mk([]string{"你好", "你们"}, "fuzzy 你"),
@@ -491,4 +501,45 @@ func corpus() []core.Case {
 		mk(wide36, "findall abc你😀é", "prefix 你", "fuzzy b😀", "match cc"),
 		mk(wide14, "findall axbyhx😁y", "prefix 好", "fuzzy dy", "match zz"),
 	}
+	// structural dumps (only when the reflected layout of algz.Trie is as expected)
+	var abc39 []string
+	for _, a := range []string{"a", "b", "c"} {
+		abc39 = append(abc39, a)
+		for _, b := range []string{"a", "b", "c"} {
+			abc39 = append(abc39, a+b)
+			for _, c := range []string{"a", "b", "c"} {
+				abc39 = append(abc39, a+b+c)
+			}
+		}
+	}
+	var abc39len []string // the same set ordered by length (all 1, all 2, all 3)
+	for l := 1; l <= 3; l++ {
+		for _, p := range abc39 {
+			if len(p) == l {
+				abc39len = append(abc39len, p)
+			}
+		}
+	}
+	cases = append(cases,
+		withDump(mk([]string{"he", "she", "his", "hers"}, "findall ushers")),
+		withDump(mk([]string{"hers", "his", "she", "he", "he"}, "fuzzy she")),
+		withDump(mk([]string{"你好", "你们"}, "prefix 你")),
+		withDump(mk([]string{"a\xffb", "a\xef\xbf\xbdb", "\xffb", "\xef\xbf\xbd", "\xe4\xbd", "你"}, "findall a\xffb")),
+		withDump(mk([]string{"c", "b", "a", "é", "ab", "aa", "😀a", "a😀"}, "match a")),
+		withDump(mk([]string{"a", "ab", "bab", "bc", "bca", "c", "caa"}, "findall abccab")),
+		withDump(mk([]string{"abcab", "bcabx", "cab", "abx"}, "fuzzy abcab")),
+		withDump(mk([]string{""}, "match a")),
+		withDump(mk(nil, "match a")),
+		// the BFS queue grows (wrapped) once, twice, three times: fail links of deep nodes
+		withDump(mk(wide36, "match cc")),
+		withDump(mk(wide14, "match zz")),
+		withDump(mk(abc39, "findall abcabc")),
+		withDump(mk(abc39len, "findall cbacba")),
+		// sparse deep sets over {a,b,c}: the queue grows twice while wrapped and nodes of depth ≥ 4
+		// are popped late — a queue that hands the nodes out in a rotated order after a
+		// wrapped growth leaves fail links of deep nodes at the root (seen only in the dump)
+		withDump(mk(strings.Fields("ccba abbbb caa acc bbb abaaaa bcc aabac aabab baaa cbcb acb aca bba bca bab cab abbbc bcb cac abca"), "findall abaaaabac", "fuzzy abaaaa")),
+		withDump(mk(strings.Fields("acabc aacb baa bac cab bba ccc acb abac abbb bca cca cba cbc ccb acaa bbb bcb bbc abbc bcc"), "findall acabcabbc", "fuzzy acabc")),
+	)
+	return cases
 }
